@@ -85,6 +85,7 @@ PROPERTY FailedKeeps
   NPARTS = {nparts}
   PART = {part}
   Queries = {"TRUE" if p.get('queries') else "FALSE"}
+  Setters = {"TRUE" if p.get('setters') else "FALSE"}
 INIT Init
 NEXT Next
 VIEW {"ViewH" if p.get("histview") else "View"}
@@ -151,6 +152,9 @@ class Ctx:
             return f.expand()
         if o[0] == "chk":      # a look-up as an operation of the history
             return f.check(o[1])
+        if o[0] == "auto":     # the auto_expand setter
+            f.auto_expand = o[1] == "T"
+            return None
 
     def reload(self, f, c, channel):
         """export + load; what the format does not store (hash function, fingerprint width, expansion settings) is re-supplied"""
@@ -404,6 +408,9 @@ def profiles(tier, light=False, focus=None):
                       maxcap=3, maxdepth=4, maxout=2, nparts=1))
         P.append(dict(fp={"a": 1, "b": 2, "c": 3}, altvals=[0, 1], bs=1, ms=1, counting=counting, cap0s=[1, 2], autos=[True], rate=1,
                       maxcap=2, maxdepth=4, maxout=2, nparts=1))
+        # the auto_expand setter as an operation: fill with growth allowed, freeze, overfill (must fail cleanly), thaw, grow
+        P.append(dict(fp={"a": 1, "b": 2, "c": 3}, altvals=[0, 1], bs=1, ms=1, counting=counting, cap0s=[1], autos=[False, True], setters=True,
+                      maxcap=4, maxdepth=5 if tier != "quick" else 4, maxout=1, nparts=2))
     if light and tier == "quick":
         P = [dict(p, altvals=p["altvals"][:2] if len(p["fp"]) > 3 and p["bs"] == 1 else p["altvals"]) for p in P]
     if light and tier == "thorough":     # cross-cutting properties: the two smallest bucket sizes, one depth less
